@@ -246,7 +246,7 @@ func TestPropVocabulary(t *testing.T) {
 func TestPropGuessEnumerate(t *testing.T) {
 	registerAll()
 	alpha := []string{`"`, "a", ".", "1", "0", "-", "e", "E", "+", "true", "false", "null", "{", "[", " ", `\"`, "5"}
-	maxLen := ev.N(4, 7)
+	maxLen := ev.N(5, 7)
 	ev.KeepFirst("guess")
 	var n, nt, bad int64
 	gen.Shortlex(alpha, maxLen, ev.Mine, func(b []byte, _ []int) {
@@ -284,6 +284,12 @@ func TestPropGuessRandom(t *testing.T) {
 		case 1:
 			return LitCase{gen.EncodeString(t, gen.JSONString(t, "s"))}
 		case 2:
+			if rapid.Bool().Draw(t, "built") {
+				// mantissa x exponent marker x exponent: integral and non-integral values under both spellings of the marker
+				m := rapid.SampledFrom([]string{"1", "12", "1.5", "2.50", "1.0", "0.5", "120.0", "3.0", "0.25", "100", "-3.0", "-1.5", "0.0", "9.99"}).Draw(t, "mantissa")
+				e := rapid.SampledFrom([]string{"e", "E"}).Draw(t, "marker") + rapid.SampledFrom([]string{"", "+", "-"}).Draw(t, "expsign") + rapid.SampledFrom([]string{"0", "1", "2", "3", "01", "10"}).Draw(t, "exp")
+				return LitCase{m + e}
+			}
 			return LitCase{rapid.SampledFrom([]string{"0", "-0", "1", "-12", "0.5", "1.50", "1e5", "1E+2", "0.5e-3", "12e012", "1.0e+00", "100e-2", "123456789012345678901234567890", "0.1000000000000000000000001"}).Draw(t, "num")}
 		default:
 			return LitCase{rapid.SampledFrom([]string{"true", "false", "null", "{", "["}).Draw(t, "lit")}
@@ -313,11 +319,30 @@ var notLiterals = []string{"invalid", "@cat", "nul", "-", "1x", "", " 1", "tru",
 
 func guessSeq(c SeqCase) *ev.Verdict {
 	failedBefore := false
+	answers := map[string]string{}
 	for i, s := range c.Texts {
 		if !isLiteral(s) {
-			if esc := sut.Trap("GuessSchemaType", func() { _, _ = schema.GuessSchemaType([]byte(s)) }); esc != nil {
+			// not a literal: whatever the answer is, it is the same every time, and a success names a type
+			var got schema.SchemaType
+			var err error
+			if esc := sut.Trap("GuessSchemaType", func() { got, err = schema.GuessSchemaType([]byte(s)) }); esc != nil {
 				return ev.V("guess:panic:"+esc.Frame, "GuessSchemaType(%q) panicked: %s", s, esc.Value)
 			}
+			ans := "error"
+			if err == nil {
+				ans = "type " + string(got)
+				known := false
+				for _, d := range documented {
+					known = known || d == string(got)
+				}
+				if !known {
+					return ev.V("guess:success-without-type", "call %d of %q: GuessSchemaType(%q) returns no error and the type %q", i, c.Texts, s, got)
+				}
+			}
+			if prev, ok := answers[s]; ok && prev != ans {
+				return ev.V("guess:unstable:non-literal", "GuessSchemaType(%q) answered %q and later %q (calls %q)", s, prev, ans, c.Texts)
+			}
+			answers[s] = ans
 			failedBefore = true
 			continue
 		}
@@ -345,7 +370,7 @@ func guessSeq(c SeqCase) *ev.Verdict {
 	return nil
 }
 
-var guessLits = []string{"0", "-0", "1", "-12", "0.5", "1.0", "-3.00", "0.0", "1.50", "1e5", "1E+2", "0.5e-3", "1.0e+00", "100e-2", "10e-1", "true", "false", "null", "{", "[", `"a"`, `"1.0"`, `"a.b"`, `""`, `"null"`, `"1e5"`}
+var guessLits = []string{"0", "-0", "1", "-12", "0.5", "1.0", "-3.00", "0.0", "1.50", "1e5", "1E+2", "0.5e-3", "1.0e+00", "100e-2", "10e-1", "1.5E1", "2.50E2", "120.0E-1", "1.5e1", "0.5E0", "true", "false", "null", "{", "[", `"a"`, `"1.0"`, `"a.b"`, `""`, `"null"`, `"1e5"`}
 
 func TestPropGuessHistories(t *testing.T) {
 	registerAll()
